@@ -269,6 +269,8 @@ func leavesList.InsertSorted.$1
 func operationsStack.PushAll
   props C04
   modifies *s, (*s)[*]
+  // nothing already on the stack is dropped: the stack grows by exactly the operations handed in
+  ensures len(*s) == old(len(*s)) + len(ops)
 func newEmptyBatchNode
   props C04
   ensures result != nil && fresh(result)
